@@ -241,9 +241,10 @@ class Shard:
             return ""
 
 
-def run_shards(shards, wall_limit):
+def run_shards(shards, wall_limit, grace=45):
     """run all shards with at most JOBS in parallel; returns True if the wall guard fired"""
     t0 = time.time()
+    fail_deadline = None
     pending = list(shards)
     running = []
     timed_out = False
@@ -259,6 +260,22 @@ def run_shards(shards, wall_limit):
                 s.rc = rc
                 s.logf.close()
                 running.remove(s)
+                if rc != 0 and fail_deadline is None:
+                    # a shard has found (and shrunk) a failure: the verdict is decided; give the others a short
+                    # grace period to finish their own shrinking, do not start new ones
+                    fail_deadline = time.time() + grace
+                    for q in pending:
+                        q.rc = None
+                    pending = []
+        if fail_deadline is not None and time.time() > fail_deadline and running:
+            for s in running:
+                s.kill()
+            for s in running:
+                s.proc.wait()
+                s.rc = None
+                s.logf.close()
+            running = []
+            break
         if time.time() - t0 > wall_limit:
             timed_out = True
             for s in running:
